@@ -347,3 +347,25 @@ Definition cache_keys (s: state (code:=tag)) (classes: list nat) : list (option 
 Definition observe (h: list (nat * list nat)) (classes: list nat) (ops: list op)
   : list (option tag) * list (option (list nat)) :=
   let r := run tcompile (anc_of h) true init ops in (fst r, cache_keys (snd r) classes).
+
+(* boolean equality of observations, for the correspondence *)
+Definition onat_eqb (a b: option nat) : bool :=
+  match a, b with Some x, Some y => Nat.eqb x y | None, None => true | _, _ => false end.
+Definition otag_eqb (a b: option tag) : bool :=
+  match a, b with
+  | Some (c1, d1), Some (c2, d2) => Nat.eqb c1 c2 && onat_eqb d1 d2
+  | None, None => true | _, _ => false end.
+Fixpoint list_eqb {A} (e: A -> A -> bool) (l1 l2: list A) : bool :=
+  match l1, l2 with
+  | [], [] => true
+  | x :: r1, y :: r2 => e x y && list_eqb e r1 r2
+  | _, _ => false end.
+Definition okeys_eqb (a b: option (list nat)) : bool :=
+  match a, b with Some x, Some y => list_eqb Nat.eqb x y | None, None => true | _, _ => false end.
+
+(* one correspondence case: hierarchy, observed classes, history, what /repo did *)
+Definition cache_case := (list (nat * list nat) * list nat * list op * (list (option tag) * list (option (list nat))))%type.
+Definition cache_case_ok (c: cache_case) : bool :=
+  let '(h, classes, ops, (eouts, ekeys)) := c in
+  let (mouts, mkeys) := observe h classes ops in
+  list_eqb otag_eqb mouts eouts && list_eqb okeys_eqb mkeys ekeys.
